@@ -1,9 +1,9 @@
 package main
 
 import (
-	"reflect"
 	"errors"
 	"fmt"
+	"reflect"
 
 	"github.com/CrowdStrike/csproto"
 	gogoproto "github.com/gogo/protobuf/proto"
